@@ -55,7 +55,24 @@ FOCUS6 = ("In this round look in particular at the classic PYTHON / NUMPY pitfal
           "out-of-range indices that wrap instead of failing; an exception swallowed or converted so that a failure is "
           "silently ignored; reliance on dict / set iteration order; exact float equality where a tolerance was, or "
           "the reverse.")
-FOCUS = {"4": FOCUS4, "5": FOCUS5, "6": FOCUS6}.get(sys.argv[3] if len(sys.argv) > 3 else "", FOCUS3)
+FOCUS7 = ("In this round assume the property is guarded by a strong randomized differential checker that already covers "
+          "everything on the list below (alternative argument forms, defaults, dtype mixes, float32 rounding, ties, "
+          "several instances alive at once, pickling mid-cycle, seed 0, huge and tiny magnitudes, histories with clear / "
+          "remap / restart, fault injection). Look for what such a checker STRUCTURALLY tends not to see: a rare "
+          "branch guarded by a SIZE threshold that small random cases never cross (a chunk size, a buffer that "
+          "must fill, a capacity that must double several times, more elites than some constant, a batch larger than "
+          "the number of cells, dimension above some value); an effect that needs a LONG history (hundreds of calls: "
+          "slow drift of an accumulated sum, a counter that wraps or is compared with the wrong bound, a cache that "
+          "is only invalidated every N-th time); a documented but rarely used part of the public API through which the "
+          "property is observable (properties and dunder methods such as len / iter / empty / stats fields / "
+          "best_elite, `return_type` variants, ArchiveDataFrame methods, emitter and scheduler read-only properties, "
+          "aliases of a function); an interaction with the ENVIRONMENT (a temporary np.errstate / warnings filter / "
+          "print options / thread limit that is changed and not restored, or that changes the result when the user "
+          "has set it); a change that is correct for every archive / emitter / ranker type shipped with the library "
+          "but wrong for the generic contract they implement, in a way that only one shipped configuration exposes; "
+          "an off-by-one in which of several equally plausible rows / cells / emitters is picked, visible only when "
+          "those candidates differ in a secondary attribute (an extra field, the solution, the measures).")
+FOCUS = {"4": FOCUS4, "5": FOCUS5, "6": FOCUS6, "7": FOCUS7}.get(sys.argv[3] if len(sys.argv) > 3 else "", FOCUS3)
 print(f"""You are testing how well a semantic property of the Python library pyribs (quality-diversity optimization; package `ribs`) is protected against regressions. You have your own scratch git worktree of the repository at {wt} (work ONLY there and in {wt}_out; do not read or touch /repo, /verif or any other directory outside {wt}, {wt}_out and the Python environment). Run Python with `PYTHONPATH={wt} /venv/bin/python` so that your modified copy of `ribs` is imported (check `ribs.__file__`). NEVER use `git stash` (it is shared between worktrees): use `git diff > file`, `git apply`, `git apply -R`, `git checkout -- .`.
 
 THE PROPERTY ({pid}: {p['title']}):
